@@ -1,4 +1,5 @@
 #include "chibicc.h"
+#include <signal.h>
 
 typedef enum {
   FILE_NONE, FILE_C, FILE_ASM, FILE_OBJ, FILE_AR, FILE_DSO,
@@ -719,6 +720,11 @@ static FileType get_file_type(char *filename) {
 
 int main(int argc, char **argv) {
   atexit(cleanup);
+
+  // If SIGCHLD is inherited as ignored, the kernel reaps our children
+  // itself and wait() cannot report how they ended.
+  signal(SIGCHLD, SIG_DFL);
+
   init_macros();
   parse_args(argc, argv);
 
